@@ -1,0 +1,143 @@
+//go:build verif
+
+// Copyright Istio Authors
+//
+// Licensed under the Apache License, Version 2.0 (the "License");
+// you may not use this file except in compliance with the License.
+// You may obtain a copy of the License at
+//
+//     http://www.apache.org/licenses/LICENSE-2.0
+//
+// Unless required by applicable law or agreed to in writing, software
+// distributed under the License is distributed on an "AS IS" BASIS,
+// WITHOUT WARRANTIES OR CONDITIONS OF ANY KIND, either express or implied.
+// See the License for the specific language governing permissions and
+// limitations under the License.
+
+package core
+
+import (
+	"strings"
+
+	cluster "github.com/envoyproxy/go-control-plane/envoy/config/cluster/v3"
+
+	"istio.io/istio/pkg/util/sets"
+	"istio.io/istio/pkg/verif"
+)
+
+// ---------------------------------------------------------------------------------------------
+// C14: names are unique within a type; virtual-host domains do not collide
+// ---------------------------------------------------------------------------------------------
+
+// Recording a metric touches only the push context's status maps.
+//
+//verif:opaque (*istio.io/istio/pilot/pkg/model.PushContext).AddMetric
+
+func clustersPresent(cs []*cluster.Cluster) bool {
+	return verif.Forall(func(i int) bool { return !(0 <= i && i < len(cs)) || cs[i] != nil })
+}
+
+// nameAmong: some cluster among the first n of cs has this name.
+func nameAmong(cs []*cluster.Cluster, n int, name string) bool {
+	return verif.Exists(func(j int) bool { return 0 <= j && j < n && j < len(cs) && cs[j].Name == name })
+}
+
+// from the statement: "names are unique within a type". For clusters this is established at the end of
+// cluster generation: whatever the generators produced, the list handed on has pairwise different names,
+// consists of generated clusters only, and still has a cluster for every generated name.
+//
+//verif:contract (*ClusterBuilder).normalizeClusters
+//verif:prop C14
+func ctNormalizeClusters(cb *ClusterBuilder, clusters []*cluster.Cluster) {
+	verif.Requires("builder-present", cb != nil && cb.req != nil)
+	verif.Requires("clusters-present", clustersPresent(clusters))
+	out := cb.normalizeClusters(clusters)
+	verif.Ensures("names-pairwise-different", verif.Forall(func(i int) bool {
+		return verif.Forall(func(j int) bool { return !(0 <= i && i < j && j < len(out)) || out[i].Name != out[j].Name })
+	}))
+	verif.Ensures("only-generated-clusters", verif.Forall(func(i int) bool {
+		return !(0 <= i && i < len(out)) || verif.Exists(func(k int) bool { return 0 <= k && k < len(clusters) && clusters[k] == out[i] })
+	}))
+	verif.Ensures("every-generated-name-kept", verif.Forall(func(k int) bool {
+		return !(0 <= k && k < len(clusters)) || nameAmong(out, len(out), clusters[k].Name)
+	}))
+}
+
+//verif:invariant (*ClusterBuilder).normalizeClusters 1
+func invNormalizeClusters(clusters, out []*cluster.Cluster, have sets.String, rangeindex int) bool {
+	n := rangeindex + 1
+	return rangeindex < len(clusters) && have != nil && verif.Fresh(have) && verif.Fresh(out) && len(out) <= n &&
+		clustersPresent(clusters) &&
+		verif.Forall(func(i int) bool { return !(0 <= i && i < len(out)) || out[i] != nil }) &&
+		// have = the names seen so far = the names kept so far
+		verif.Forall(func(name string) bool {
+			_, in := have[name]
+			return in == nameAmong(clusters, n, name) && in == nameAmong(out, len(out), name)
+		}) &&
+		verif.Forall(func(i int) bool {
+			return verif.Forall(func(j int) bool { return !(0 <= i && i < j && j < len(out)) || out[i].Name != out[j].Name })
+		}) &&
+		verif.Forall(func(i int) bool {
+			return !(0 <= i && i < len(out)) || verif.Exists(func(k int) bool { return 0 <= k && k < n && clusters[k] == out[i] })
+		})
+}
+
+// lowerIn: some domain among the first n of ds equals d when case is ignored.
+func lowerIn(ds []string, n int, d string) bool {
+	return verif.Exists(func(j int) bool { return 0 <= j && j < n && j < len(ds) && strings.ToLower(ds[j]) == d })
+}
+
+// from the statement: "virtual-host domains within a route configuration ... do not collide". The domains
+// kept for one virtual host are pairwise different ignoring case, none of them collides with a domain
+// already claimed by an earlier virtual host of the route configuration, and the set of claimed domains
+// grows by exactly the kept ones.
+//
+//verif:contract dedupeDomains
+//verif:prop C14
+func ctDedupeDomains(domains []string, vhdomains sets.String, expandedHosts []string, knownFQDNs sets.String) {
+	verif.Requires("claimed-set-present", vhdomains != nil)
+	res := dedupeDomains(domains, vhdomains, expandedHosts, knownFQDNs)
+	verif.Ensures("kept-domains-pairwise-different-ignoring-case", verif.Forall(func(i int) bool {
+		return verif.Forall(func(j int) bool {
+			return !(0 <= i && i < j && j < len(res)) || strings.ToLower(res[i]) != strings.ToLower(res[j])
+		})
+	}))
+	verif.Ensures("no-kept-domain-was-already-claimed", verif.Forall(func(i int) bool {
+		if !(0 <= i && i < len(res)) {
+			return true
+		}
+		d := strings.ToLower(res[i])
+		return !verif.Old(func() bool { return vhdomains.Contains(d) })
+	}))
+	verif.Ensures("claimed-grows-by-the-kept-domains", verif.Forall(func(d string) bool {
+		return vhdomains.Contains(d) == (verif.Old(func() bool { return vhdomains.Contains(d) }) || lowerIn(res, len(res), d))
+	}))
+}
+
+//verif:invariant dedupeDomains 1
+func invDedupeDomains(domains, temp []string, vhdomains sets.String, rangeindex int) bool {
+	n := rangeindex + 1
+	k := len(temp)
+	return rangeindex < len(domains) && k <= n && vhdomains != nil &&
+		// the kept domains are written over the front of the same array
+		verif.Same(temp[:0], domains[:0]) &&
+		// what has not been looked at yet is still what was handed in
+		verif.Forall(func(i int) bool {
+			return !(n <= i && i < len(domains)) || domains[i] == verif.Old(func() string { return domains[i] })
+		}) &&
+		verif.Forall(func(i int) bool {
+			return verif.Forall(func(j int) bool {
+				return !(0 <= i && i < j && j < k) || strings.ToLower(temp[i]) != strings.ToLower(temp[j])
+			})
+		}) &&
+		verif.Forall(func(i int) bool {
+			if !(0 <= i && i < k) {
+				return true
+			}
+			d := strings.ToLower(temp[i])
+			return !verif.Old(func() bool { return vhdomains.Contains(d) })
+		}) &&
+		verif.Forall(func(d string) bool {
+			return vhdomains.Contains(d) == (verif.Old(func() bool { return vhdomains.Contains(d) }) || lowerIn(temp, k, d))
+		})
+}
